@@ -17,7 +17,8 @@ Record obs := mkobs {
 Record sd := mksd {
   d_sid : N; d_backend : N; d_kind : N; d_user : N; d_authuser : N; d_room : option (N * N); d_rs : N;
   d_conn : option N; d_incall : bool; d_perms : option N; d_pubs : N; d_nsubs : N; d_pending : N;
-  d_counted : bool; d_parent : N }.
+  d_counted : bool; d_parent : N;
+  d_pubmedia : N   (* audio (bit 0) / video (bit 1) carried by the session's non-screen publishers *) }.
 
 Record digest := mkdigest {
   g_sessions : list sd;
@@ -141,6 +142,15 @@ Definition obs_match (o : obs) (outs : list out) : bool :=
   && mset_eqb breq_eqb o.(o_breqs) (breqs_of outs)
   && mset_eqb mcuev_eqb o.(o_mcu) (mcu_of outs).
 
+(* A housekeeping tick closes every session that is due; the server walks a map, so the order in which
+   independent sessions are closed - and with it the order of the resulting notices on a connection - is
+   not determined. For ticks the messages of a connection are compared as a multiset. *)
+Definition obs_match_unordered (o : obs) (outs : list out) : bool :=
+  forallb (fun c => mset_eqb smsg_eqb (impl_msgs_for c o) (msgs_for c outs)) (map fst o.(o_recv) ++ conns_of outs)
+  && mset_eqb N.eqb o.(o_closed) (closed_of outs)
+  && mset_eqb breq_eqb o.(o_breqs) (breqs_of outs)
+  && mset_eqb mcuev_eqb o.(o_mcu) (mcu_of outs).
+
 (* ---- digest of the model state ---- *)
 Definition pending_len (l : list smsg) : N := N.of_nat (length (filter compared l)).
 Definition pubs_mask (l : list (N * N)) : N := fold_left (fun acc e => N.lor acc (N.shiftl 1 (fst e))) l 0.
@@ -153,14 +163,17 @@ Definition sd_of (h : hub) (e : N * session) : sd :=
        s.(s_room) (if is_virtual s.(s_kind) then 0 else s.(s_rs)) s.(s_conn) (in_call h sid s) s.(s_perms) (pubs_mask s.(s_pubs))
        (N.of_nat (length s.(s_subs))) (pending_len s.(s_pending))
        (nmem sid (counted_of h s.(s_backend)))
-       (match s.(s_kind) with KVirtual p _ => p | _ => 0 end).
+       (match s.(s_kind) with KVirtual p _ => p | _ => 0 end)
+       (fold_left (fun acc e => if N.eqb (fst e) 2 then acc
+                                else N.lor acc (N.land (match aget s.(s_pubmedia) (snd e) with Some m => m | None => 0 end) 3))
+                  s.(s_pubs) 0).
 
 Definition sd_eqb (a b : sd) : bool :=
   N.eqb a.(d_sid) b.(d_sid) && N.eqb a.(d_backend) b.(d_backend) && N.eqb a.(d_kind) b.(d_kind) &&
   N.eqb a.(d_user) b.(d_user) && N.eqb a.(d_authuser) b.(d_authuser) && opt_pair_eqb a.(d_room) b.(d_room) && N.eqb a.(d_rs) b.(d_rs) &&
   optN_eqb a.(d_conn) b.(d_conn) && Bool.eqb a.(d_incall) b.(d_incall) && optN_eqb a.(d_perms) b.(d_perms) &&
   N.eqb a.(d_pubs) b.(d_pubs) && N.eqb a.(d_nsubs) b.(d_nsubs) && N.eqb a.(d_pending) b.(d_pending) &&
-  Bool.eqb a.(d_counted) b.(d_counted) && N.eqb a.(d_parent) b.(d_parent).
+  Bool.eqb a.(d_counted) b.(d_counted) && N.eqb a.(d_parent) b.(d_parent) && N.eqb a.(d_pubmedia) b.(d_pubmedia).
 
 Definition room_entry_eqb (a b : (N * N) * list N * list N) : bool :=
   let '(k, m, i) := a in let '(k', m', i') := b in
@@ -233,7 +246,7 @@ Fixpoint first_diff (mode : N) (i : N) (h : hub) (tr : trace) : option (N * N) :
   | [] => None
   | (o, ob, dg) :: r =>
       let '(h', outs) := sem_step mode h o in
-      if negb (obs_match ob outs) then Some (i, 1)
+      if negb (match o with OTick _ => obs_match_unordered ob outs | _ => obs_match ob outs end) then Some (i, 1)
       else if negb (digest_match dg (digest_of h')) then Some (i, 100 + digest_diff dg (digest_of h'))
       else first_diff mode (i + 1) h' r
   end.
